@@ -19,7 +19,9 @@ use serde::de::{self, Deserialize, Deserializer, DeserializeSeed, Visitor, SeqAc
 // ---------------------------------------------------------------- universe
 #[derive(Clone, Debug, PartialEq)]
 pub enum Ty { U8, Bool, U16, U32, U64, Usize, I16, I32, I64, F64, Bytes, Str,
-              Opt(Box<Ty>), Seq(Box<Ty>), Map(Box<Ty>, Box<Ty>), Tuple(Vec<Ty>), Enum(Vec<Ty>) }
+              Opt(Box<Ty>), Seq(Box<Ty>), Map(Box<Ty>, Box<Ty>), Tuple(Vec<Ty>), Enum(Vec<Ty>),
+              /// a named (possibly recursive) type of the generated environment (coq/Gen/rules_ty.json)
+              Named(String) }
 #[derive(Clone, Debug, PartialEq)]
 pub enum Val { U8(u8), Bool(bool), UInt(u64), SInt(i64), F64(u64), Bytes(Vec<u8>), Str(Vec<u8>),
                None, Some(Box<Val>), Seq(Vec<Val>), Tuple(Vec<Val>), Variant(u32, Box<Val>) }
@@ -28,6 +30,31 @@ static FIELDS: [&str; 12] = ["f0", "f1", "f2", "f3", "f4", "f5", "f6", "f7", "f8
 /// tuples with an even number of fields go through serde's struct methods,
 /// the others through the tuple methods (bincode frames neither)
 fn as_struct(n: usize) -> bool { n % 2 == 0 && n <= FIELDS.len() }
+
+/// The shapes derived by translate/gen_codec.py from the Rust definitions reachable from
+/// `struct Rules` (the same derivation that produces coq/Gen/RulesTyGen.v).
+static TYPES_JSON: &str = include_str!("../../../coq/Gen/rules_ty.json");
+fn ty_of_json(v: &serde_json::Value) -> Ty {
+    let b = |x: &serde_json::Value| Box::new(ty_of_json(x));
+    let ts = |x: &serde_json::Value| x.as_array().map(|a| a.iter().map(ty_of_json).collect()).unwrap_or_default();
+    match v["k"].as_str().unwrap_or("?") {
+        "u8" => Ty::U8, "bool" => Ty::Bool, "f64" => Ty::F64, "bytes" => Ty::Bytes, "str" => Ty::Str,
+        "uint" => match v["w"].as_u64() { Some(16) => Ty::U16, Some(32) => Ty::U32, _ => Ty::U64 },
+        "sint" => match v["w"].as_u64() { Some(16) => Ty::I16, Some(32) => Ty::I32, _ => Ty::I64 },
+        "opt" => Ty::Opt(b(&v["t"])), "seq" => Ty::Seq(b(&v["t"])), "map" => Ty::Map(b(&v["key"]), b(&v["val"])),
+        "tuple" => Ty::Tuple(ts(&v["ts"])), "enum" => Ty::Enum(ts(&v["ts"])),
+        "named" => Ty::Named(v["n"].as_str().unwrap_or("?").to_string()),
+        k => panic!("rules_ty.json: unknown shape kind {}", k),
+    }
+}
+pub fn type_env() -> &'static HashMap<String, Ty> {
+    static ENV: std::sync::OnceLock<HashMap<String, Ty>> = std::sync::OnceLock::new();
+    ENV.get_or_init(|| {
+        let v: serde_json::Value = serde_json::from_str(TYPES_JSON).expect("rules_ty.json");
+        v["types"].as_object().expect("types").iter().map(|(k, t)| (k.clone(), ty_of_json(t))).collect()
+    })
+}
+fn named(n: &str) -> &'static Ty { type_env().get(n).unwrap_or_else(|| panic!("unknown named type {}", n)) }
 
 pub fn zero_size(t: &Ty) -> bool { matches!(t, Ty::Tuple(ts) if ts.iter().all(zero_size)) }
 
@@ -88,6 +115,7 @@ impl Serialize for TV<'_> {
                 }
                 (t, v) => s.serialize_newtype_variant("E", *i, "V", &TV(t, v)),
             },
+            (Ty::Named(n), v) => TV(named(n), v).serialize(s),
             (t, v) => panic!("generator: ill-typed value {:?} : {:?}", v, t),
         }
     }
@@ -125,6 +153,7 @@ impl<'de> DeserializeSeed<'de> for Seed<'_> {
             Ty::Tuple(ts) => if as_struct(ts.len()) { d.deserialize_struct("S", &FIELDS[..ts.len()], TupV(ts)) }
                              else { d.deserialize_tuple(ts.len(), TupV(ts)) },
             Ty::Enum(ts) => d.deserialize_enum("E", &[], EnumV(ts)),
+            Ty::Named(n) => Seed(named(n)).deserialize(d),
         }
     }
 }
@@ -212,6 +241,7 @@ pub fn coq_ty(t: &Ty) -> String {
         Ty::Map(k, v) => format!("(TMap {} {})", coq_ty(k), coq_ty(v)),
         Ty::Tuple(ts) => format!("(TTuple {})", coq_list(ts, coq_ty)),
         Ty::Enum(ts) => format!("(TEnum {})", coq_list(ts, coq_ty)),
+        Ty::Named(n) => coq_ty(named(n)),
     }
 }
 pub fn coq_val(v: &Val) -> String {
@@ -304,6 +334,7 @@ pub fn gen_val(rng: &mut Rng, t: &Ty, budget: &mut i64) -> Val {
                            Val::Seq((0..n).map(|_| Val::Tuple(vec![gen_val(rng, k, budget), gen_val(rng, v, budget)])).collect()) }
         Ty::Tuple(ts) => Val::Tuple(ts.iter().map(|t| gen_val(rng, t, budget)).collect()),
         Ty::Enum(ts) => { let i = rng.below(ts.len() as u64) as usize; Val::Variant(i as u32, Box::new(gen_val(rng, &ts[i], budget))) }
+        Ty::Named(n) => gen_val(rng, named(n), budget),
     }
 }
 
@@ -774,13 +805,13 @@ pub fn bound_check_probe() -> i32 {
     let t = rules_ty();
     let v = match real_decode(&t, &b0[hdr_len..]) { DOut::Ok(v, _) => v, o => { println!("cannot decode: {:?}", o); return 1; } };
     let Val::Tuple(fields) = &v else { return 1 };
-    let n_sub = if let Val::Seq(x) = &fields[9] { x.len() as u64 } else { return 1 };
+    let n_sub = if let Val::Seq(x) = &fields[F_SUB_PATTERNS] { x.len() as u64 } else { return 1 };
     println!("sub_patterns.len() = {}", n_sub);
     { let mut r = Rng::new(0xC08); let set = gen_regex_set_family(&mut r); let rr = compile_set(&set).unwrap(); let b = rr.serialize().unwrap();
-      if let Some(Val::Tuple(f)) = blob_value(&t, &b, hdr_len) { println!("family regex_sets = {:?}\nregex_pool = {:?}", f[17], f[1]); } else { println!("family blob not decodable"); } }
+      if let Some(Val::Tuple(f)) = blob_value(&t, &b, hdr_len) { println!("family regex_sets = {:?}\nregex_pool = {:?}", f[F_REGEX_SETS], f[1]); } else { println!("family blob not decodable"); } }
     for delta in [-1i64, 0, 1] {
         let mut f = fields.clone();
-        if let Val::Seq(atoms) = &mut f[13] { if let Some(Val::Tuple(a)) = atoms.first_mut() { a[0] = Val::UInt((n_sub as i64 + delta) as u64); } }
+        if let Val::Seq(atoms) = &mut f[F_ATOMS] { if let Some(Val::Tuple(a)) = atoms.first_mut() { a[0] = Val::UInt((n_sub as i64 + delta) as u64); } }
         let mut blob = b0[..hdr_len].to_vec(); blob.extend(real_encode(&t, &Val::Tuple(f)));
         println!("atom[0].sub_pattern_id = len{:+}: Rules::deserialize -> {:?}", delta, classify(&blob));
     }
@@ -802,7 +833,7 @@ pub fn selftest_rekey(n: usize) -> i32 {
         let b0 = r0.serialize().unwrap(); let hdr_len = header_len(&b0);
         let Some(Val::Tuple(mut f)) = (match real_decode(&t, &b0[hdr_len..]) { DOut::Ok(v, _) => Some(v), _ => None }) else { println!("undecodable"); continue };
         let mut differs = false;
-        if let Val::Seq(es) = &mut f[17] { for (i, e) in es.iter_mut().enumerate() { if let Val::Tuple(kv) = e { if kv[0] != Val::SInt(i as i64) { differs = true; } kv[0] = Val::SInt(i as i64); } } }
+        if let Val::Seq(es) = &mut f[F_REGEX_SETS] { for (i, e) in es.iter_mut().enumerate() { if let Val::Tuple(kv) = e { if kv[0] != Val::SInt(i as i64) { differs = true; } kv[0] = Val::SInt(i as i64); } } }
         if !differs { continue; }
         changed += 1;
         let mut blob = b0[..hdr_len].to_vec(); blob.extend(real_encode(&t, &Val::Tuple(f)));
@@ -881,27 +912,39 @@ pub fn scan_dump(r: &yara_x::Rules, data: &[u8], over: &[(String, String)]) -> S
 // validated against real blobs); used only to compare two blobs up to the order
 // of hash-map entries
 pub fn rules_ty() -> Ty {
-    use Ty::*;
-    let b = |t: Ty| Box::new(t);
-    let st = |v: Vec<Ty>| Tuple(v);
-    let unit = || Tuple(vec![]);
-    let bound = |t: Ty| Enum(vec![unit(), t.clone(), t]);
-    let meta = Enum(vec![Bool, I64, F64, U32, U32]);
-    let kind = Enum(vec![unit(), unit(), unit()]);
-    let pinfo = st(vec![I32, U32, kind, Bool]);
-    let rinfo = st(vec![I32, U32, U32, Seq(b(U32)), Seq(b(Tuple(vec![U32, meta]))), Seq(b(pinfo)), Usize, Bool, Bool]);
-    let gap = Enum(vec![st(vec![U32, U32]), st(vec![U32])]);
-    let sub = Enum(vec![st(vec![U32, Opt(b(Usize)), U16]), st(vec![U32, U32, U16]), st(vec![U32, U16]), st(vec![U32, U32, gap.clone(), U16]),
-        st(vec![U16]), st(vec![U16]), st(vec![U32, gap, U16]), st(vec![U32, U16]), st(vec![U32, U8]), st(vec![U32, U8]), st(vec![U32, U32, U8]), st(vec![U32, U32, U8])]);
-    let fsb = st(vec![bound(I64), bound(I64)]);
-    let hc = Enum(vec![unit(), unit(), Bytes]);
-    let atom = st(vec![U32, st(vec![Bytes, Bool, U16]), Opt(b(U32)), Opt(b(U32))]);
-    let bitvec = st(vec![Str, st(vec![U8, U8]), U64, Seq(b(Usize))]);
-    // a plain tuple: the struct/tuple distinction of `as_struct` is irrelevant for decoding
-    Tuple(vec![Seq(b(Str)), Seq(b(Str)), Bool, Seq(b(Bytes)), Bytes, Opt(b(Bytes)), Seq(b(U32)), Seq(b(rinfo)), Usize,
-        Seq(b(Tuple(vec![I32, sub]))), Map(b(I32), b(fsb)), Map(b(I32), b(hc)), Seq(b(U32)), Seq(b(atom)), Bytes, Bytes, Bytes,
-        Map(b(I32), b(Seq(b(I32)))), bitvec, Bool])
+    // the top-level struct, unfolded one level so that its fields can be addressed by index
+    named("Rules").clone()
 }
+pub fn globals_ty() -> Ty { Ty::Named("Struct".into()) }
+/// index of a field of `struct Rules` among the serialized fields (Gen/CodecGen.v lists the
+/// same names; the order is the declaration order without the skipped fields)
+pub const F_SUB_PATTERNS: usize = 9; pub const F_FSB: usize = 10; pub const F_HC: usize = 11;
+pub const F_ATOMS: usize = 13; pub const F_GLOBALS: usize = 15; pub const F_REGEX_SETS: usize = 17;
+
+/// The positions (offset, length) of the framing integers of an encoding of shape t: lengths of
+/// sequences / maps / byte strings / strings, option tags, variant indices.  Mirrors the model's
+/// decoder (coq/Codec/Universe.v [frames]); the result is compared with it in Coq (CFlipModel).
+pub fn varint_at(b: &[u8], pos: usize) -> Option<(u64, usize)> {
+    let m = *b.get(pos)?;
+    let rd = |n: usize| -> Option<u64> { let s = b.get(pos + 1..pos + 1 + n)?; let mut x = 0u64; for (i, y) in s.iter().enumerate() { x |= (*y as u64) << (8 * i); } Some(x) };
+    match m { 0..=250 => Some((m as u64, 1)), 251 => Some((rd(2)?, 3)), 252 => Some((rd(4)?, 5)), 253 => Some((rd(8)?, 9)), _ => None }
+}
+pub fn walk(t: &Ty, b: &[u8], pos: &mut usize, out: &mut Vec<(usize, usize)>) -> Option<()> {
+    match t {
+        Ty::U8 | Ty::Bool => { *pos += 1; }
+        Ty::U16 | Ty::U32 | Ty::U64 | Ty::Usize | Ty::I16 | Ty::I32 | Ty::I64 => { *pos += varint_at(b, *pos)?.1; }
+        Ty::F64 => { *pos += 8; }
+        Ty::Bytes | Ty::Str => { let (n, l) = varint_at(b, *pos)?; out.push((*pos, l)); *pos += l + n as usize; }
+        Ty::Opt(t) => { let tag = *b.get(*pos)?; out.push((*pos, 1)); *pos += 1; if tag == 1 { walk(t, b, pos, out)?; } else if tag != 0 { return None; } }
+        Ty::Seq(t) => { let (n, l) = varint_at(b, *pos)?; out.push((*pos, l)); *pos += l; for _ in 0..n { walk(t, b, pos, out)?; } }
+        Ty::Map(k, v) => { let (n, l) = varint_at(b, *pos)?; out.push((*pos, l)); *pos += l; for _ in 0..n { walk(k, b, pos, out)?; walk(v, b, pos, out)?; } }
+        Ty::Tuple(ts) => { for t in ts { walk(t, b, pos, out)?; } }
+        Ty::Enum(ts) => { let (i, l) = varint_at(b, *pos)?; out.push((*pos, l)); *pos += l; walk(ts.get(i as usize)?, b, pos, out)?; }
+        Ty::Named(n) => { walk(named(n), b, pos, out)?; }
+    }
+    if *pos > b.len() { None } else { Some(()) }
+}
+
 /// sort the entries of every map
 pub fn canon(t: &Ty, v: Val) -> Val {
     match (t, v) {
@@ -912,6 +955,7 @@ pub fn canon(t: &Ty, v: Val) -> Val {
         (Ty::Tuple(ts), Val::Tuple(vs)) if ts.len() == vs.len() => Val::Tuple(ts.iter().zip(vs).map(|(t, v)| canon(t, v)).collect()),
         (Ty::Opt(t), Val::Some(v)) => Val::Some(Box::new(canon(t, *v))),
         (Ty::Enum(ts), Val::Variant(i, v)) if (i as usize) < ts.len() => Val::Variant(i, Box::new(canon(&ts[i as usize], *v))),
+        (Ty::Named(n), v) => canon(named(n), v),
         (_, v) => v,
     }
 }
@@ -959,6 +1003,75 @@ fn classify_prefixes(blob: &[u8], ks: &[usize]) -> Vec<Ocl> {
 }
 fn is_err(o: &Ocl) -> bool { !matches!(o, Ocl::Ok | Ocl::Panic) }
 
+// ---- bit flips in a child process
+#[derive(Clone, Debug, PartialEq)]
+pub enum Fcl { Err(Ocl), OkSame, OkDiff, Panic, Abort(i32), Mem(u64) }
+impl Fcl { fn coq(&self) -> &'static str { match self { Fcl::Err(_) => "FErr", Fcl::OkSame => "FOkSame", Fcl::OkDiff => "FOkDiff", Fcl::Panic => "FPanic", Fcl::Abort(_) => "FAbort", Fcl::Mem(_) => "FMem" } } }
+const CHILD_AS_LIMIT: u64 = 24 << 30;      // address space: an allocation driven by a damaged length fails
+const CHILD_RSS_LIMIT_KB: u64 = 3 << 20;   // resident: 3 GiB
+/// child: `work` holds the blob (hex) on the first line and "pos bit" on the others
+fn flip_child(work: &str, from: usize) -> i32 {
+    unsafe { let lim = libc::rlimit { rlim_cur: CHILD_AS_LIMIT, rlim_max: CHILD_AS_LIMIT }; libc::setrlimit(libc::RLIMIT_AS, &lim); }
+    let text = std::fs::read_to_string(work).expect("work file");
+    let mut lines = text.lines();
+    let blob = unhex(lines.next().unwrap_or(""));
+    let reference = match yara_x::Rules::deserialize(&blob) { Ok(r) => r.verif_c08_digest(), Err(e) => { println!("reference blob rejected: {:?}", e); return 2; } };
+    use std::io::Write;
+    let out = std::io::stdout();
+    for (i, l) in lines.enumerate().skip(from) {
+        let mut it = l.split_whitespace();
+        let (p, b): (usize, u8) = (it.next().unwrap().parse().unwrap(), it.next().unwrap().parse().unwrap());
+        let mut d = blob.clone(); d[p] ^= 1 << b;
+        let (o, r) = try_deserialize(&d);
+        let cls = match (&o, r) {
+            (Ocl::Ok, Some(r)) => match catch(AssertUnwindSafe(|| r.verif_c08_digest())) { Ok(g) if g == reference => "S".to_string(), Ok(_) => "D".to_string(), Err(_) => "D".to_string() },
+            (Ocl::Panic, _) => "P".to_string(),
+            (Ocl::Format, _) => "E Format".into(), (Ocl::Version(e, a), _) => format!("E Version {} {}", e, a),
+            (Ocl::DecodeEof, _) => "E DecodeEof".into(), (Ocl::DecodeOther(_), _) => "E DecodeOther".into(), _ => "E Other".into() };
+        let mut ru: libc::rusage = unsafe { std::mem::zeroed() };
+        unsafe { libc::getrusage(libc::RUSAGE_SELF, &mut ru); }
+        let _ = writeln!(out.lock(), "{} {} rss={}", i, cls, ru.ru_maxrss); let _ = out.lock().flush();
+    }
+    0
+}
+/// parent: run the flips, restarting the child after the flip that killed it
+fn run_flips(dir: &Path, blob: &[u8], flips: &[(usize, u8)]) -> Vec<((usize, u8), Fcl)> {
+    let work = dir.join("flip_work.txt");
+    let mut text = hex(blob); text.push('\n');
+    for (p, b) in flips { text.push_str(&format!("{} {}\n", p, b)); }
+    std::fs::write(&work, text).expect("write work file");
+    let exe = std::env::current_exe().expect("exe");
+    let mut res: Vec<((usize, u8), Fcl)> = vec![];
+    let mut restarts = 0;
+    while res.len() < flips.len() && restarts < 50 {
+        let from = res.len();
+        let o = std::process::Command::new(&exe).args(["--flip-child", work.to_str().unwrap(), "--from", &from.to_string()]).output().expect("spawn child");
+        let so = String::from_utf8_lossy(&o.stdout);
+        let mut rss_before = 0u64;
+        for l in so.lines() {
+            let mut it = l.split_whitespace();
+            let Some(Ok(i)) = it.next().map(|x| x.parse::<usize>()) else { continue };
+            if i != res.len() { continue; }
+            let cls = it.next().unwrap_or("?");
+            let rest: Vec<&str> = it.collect();
+            let rss: u64 = rest.iter().find_map(|x| x.strip_prefix("rss=")).and_then(|x| x.parse().ok()).unwrap_or(0);
+            let mut f = match cls { "S" => Fcl::OkSame, "D" => Fcl::OkDiff, "P" => Fcl::Panic,
+                _ => Fcl::Err(match rest.first().copied() { Some("Format") => Ocl::Format, Some("Version") => Ocl::Version(rest[1].parse().unwrap_or(0), rest[2].parse().unwrap_or(0)),
+                                                        Some("DecodeEof") => Ocl::DecodeEof, Some("DecodeOther") => Ocl::DecodeOther(String::new()), _ => Ocl::Other(String::new()) }) };
+            if rss > CHILD_RSS_LIMIT_KB && rss_before <= CHILD_RSS_LIMIT_KB { f = Fcl::Mem(rss); }
+            rss_before = rss;
+            res.push((flips[i], f));
+        }
+        if res.len() < flips.len() && !o.status.success() {
+            // the child died on the next flip
+            use std::os::unix::process::ExitStatusExt;
+            let i = res.len(); res.push((flips[i], Fcl::Abort(o.status.signal().unwrap_or(-1)))); restarts += 1;
+        } else if res.len() < flips.len() { restarts += 1; }
+    }
+    let _ = std::fs::remove_file(&work);
+    res
+}
+
 fn corpus_sets() -> Vec<GSet> {
     let g = |src: &str| GSet { namespaces: vec![("default".into(), src.into())], globals: vec![], insts: vec![b"abcd".to_vec(), b"MZ....".to_vec()], kinds: vec!["corpus".into()], relaxed: false, scan_globals: vec![] };
     let mut fam_rng = Rng::new(0xC08);
@@ -985,6 +1098,7 @@ pub fn run(args: &[String]) -> i32 {
     quiet_panics();
     if let Some(p) = arg_val(args, "--replay") { return replay(&p); }
     if arg_flag(args, "--bound-check-probe") { return bound_check_probe(); }
+    if let Some(p) = arg_val(args, "--flip-child") { return flip_child(&p, arg_u64(args, "--from", 0) as usize); }
     if arg_flag(args, "--selftest-regex-set-rekey") { return selftest_rekey(arg_u64(args, "--n", 20) as usize); }
     let seed = arg_u64(args, "--seed", 1);
     let n_bytes = arg_u64(args, "--n", 400) as usize;
@@ -995,6 +1109,12 @@ pub fn run(args: &[String]) -> i32 {
     let n_blobs = arg_u64(args, "--model-blobs", 6) as usize;
     let max_blob = arg_u64(args, "--max-model-blob-len", 150_000) as usize;
     let mut blobs_emitted = 0usize;
+    let n_flip_sets = arg_u64(args, "--flip-sets", 1) as usize;
+    let max_flips = arg_u64(args, "--max-flips", 600) as usize;
+    let flips_all_bits = arg_flag(args, "--flips-all-bits");
+    let n_flip_model = arg_u64(args, "--flip-model-blobs", 1) as usize;
+    let n_flip_sample = arg_u64(args, "--flip-model-sample", 6) as usize;
+    let (mut flip_sets_done, mut flip_model_done) = (0usize, 0usize);
     let out = arg_val(args, "--out").expect("--out");
     let prelude = "From Coq Require Import List NArith ZArith Bool.\nFrom YV Require Import Codec.Reader Codec.Varint Codec.Universe Codec.Header Codec.CodecCheck.\nImport ListNotations.\n";
     let mut shards = Shards::new(Path::new(&out), prelude, 60);
@@ -1105,19 +1225,20 @@ pub fn run(args: &[String]) -> i32 {
         // how many regexp sets / constrained patterns does this blob hold (maps whose keys matter)
         if let Some(Val::Tuple(f)) = blob_value(&rty, &b0, hdr_len) {
             let n = |i: usize| if let Some(Val::Seq(x)) = f.get(i) { x.len() } else { 0 };
-            stats.inc(&format!("b_regex_sets_{}", match n(17) { 0 => "0", 1 | 2 => "1-2", _ => "3+" }));
-            stats.inc(&format!("b_filesize_bounds_{}", match n(10) { 0 => "0", 1 | 2 => "1-2", _ => "3+" }));
-            stats.inc(&format!("b_header_constraints_{}", match n(11) { 0 => "0", 1 | 2 => "1-2", _ => "3+" }));
+            stats.inc(&format!("b_regex_sets_{}", match n(F_REGEX_SETS) { 0 => "0", 1 | 2 => "1-2", _ => "3+" }));
+            stats.inc(&format!("b_filesize_bounds_{}", match n(F_FSB) { 0 => "0", 1 | 2 => "1-2", _ => "3+" }));
+            stats.inc(&format!("b_header_constraints_{}", match n(F_HC) { 0 => "0", 1 | 2 => "1-2", _ => "3+" }));
         } else { stats.inc("b_blob_not_decodable_by_rust_shape"); }
         let (c1, r1) = try_deserialize(&b0);
         let (mut deser_ok, mut static_eq, mut scans_eq, mut reser_eq, mut stream_eq) = (false, false, false, false, b0 == b0s);
+        let mut digest_eq = false;
         let mut detail = String::new();
         if let Some(r1) = &r1 {
-            let b1 = r1.serialize().expect("serialize 2");
+            let b1 = catch(AssertUnwindSafe(|| r1.serialize())).ok().and_then(|x| x.ok()).unwrap_or_default();
             let r2 = catch(AssertUnwindSafe(|| yara_x::Rules::deserialize_from(&b1[..]))).ok().and_then(|x| x.ok());
             if let Some(r2) = &r2 {
                 deser_ok = true;
-                let mut b2 = Vec::new(); r2.serialize_into(&mut b2).expect("serialize_into 3");
+                let mut b2 = Vec::new(); let _ = catch(AssertUnwindSafe(|| r2.serialize_into(&mut b2)));
                 // Byte equality is the common case.  FxHashMap iteration order depends on the
                 // table's capacity history, so blobs holding a map with several entries may
                 // list them in another order after a round trip: compare up to that order.
@@ -1128,9 +1249,19 @@ pub fn run(args: &[String]) -> i32 {
                     stats.inc(if reser_eq { "b_reserialized_equal_up_to_map_order" } else { "b_reserialized_DIFFERENT" });
                 }
                 if !reser_eq { detail.push_str(&format!("blobs differ beyond map order; lengths {} {} {}; ", b0.len(), b1.len(), b2.len())); }
-                let (s0, s1, s2) = (static_dump(&r0), static_dump(r1), static_dump(r2));
+                let sd = |r: &yara_x::Rules| catch(AssertUnwindSafe(|| static_dump(r))).unwrap_or_else(|p| format!("PANIC in static dump: {}", p));
+                let (s0, s1, s2) = (sd(&r0), sd(r1), sd(r2));
                 static_eq = s0 == s1 && s1 == s2;
                 if !static_eq { detail.push_str(&format!("static dumps differ:\n{}\n---\n{}\n---\n{}; ", s0, s1, s2)); }
+                // every table the scanner reads, dumped without serde (hook, cfg yara_x_verif)
+                let dg = |r: &yara_x::Rules| catch(AssertUnwindSafe(|| r.verif_c08_digest())).unwrap_or_else(|p| format!("PANIC in digest: {}", p));
+                let (g0, g1, g2) = (dg(&r0), dg(r1), dg(r2));
+                digest_eq = g0 == g1 && g1 == g2;
+                if !digest_eq {
+                    let diff: Vec<String> = g0.lines().zip(g1.lines()).chain(g1.lines().zip(g2.lines())).filter(|(a, b)| a != b).take(4)
+                        .map(|(a, b)| format!("{} -> {}", &a[..a.len().min(300)], &b[..b.len().min(300)])).collect();
+                    detail.push_str(&format!("table digests differ (lines {} / {} / {}): {:?}; ", g0.lines().count(), g1.lines().count(), g2.lines().count(), diff));
+                }
                 scans_eq = true;
                 let none: Vec<(String, String)> = vec![];
                 let scans: Vec<(&Vec<u8>, &Vec<(String, String)>)> = bufs.iter().map(|b| (b, &none)).chain(set.scan_globals.iter().map(|o| (&bufs[0], o))).collect();
@@ -1144,10 +1275,10 @@ pub fn run(args: &[String]) -> i32 {
             } else { detail.push_str("second deserialize (deserialize_from) failed; "); }
         } else { detail.push_str(&format!("deserialize(serialize R) = {:?}; ", c1)); }
         let hdr = &b0[..hdr_len.min(b0.len())];
-        let replay = format!("{{\"stream\":\"b-behaviour\",\"source\":{},\"buffers_hex\":[{}],\"deser_ok\":{},\"static_eq\":{},\"scans_eq\":{},\"reser_eq\":{},\"stream_api_eq\":{},\"detail\":{}}}",
-            src_json, bufs.iter().map(|b| format!("\"{}\"", hex(b))).collect::<Vec<_>>().join(","), deser_ok, static_eq, scans_eq, reser_eq, stream_eq, json_str(&detail));
+        let replay = format!("{{\"stream\":\"b-behaviour\",\"source\":{},\"buffers_hex\":[{}],\"deser_ok\":{},\"static_eq\":{},\"scans_eq\":{},\"reser_eq\":{},\"stream_api_eq\":{},\"digest_eq\":{},\"detail\":{}}}",
+            src_json, bufs.iter().map(|b| format!("\"{}\"", hex(b))).collect::<Vec<_>>().join(","), deser_ok, static_eq, scans_eq, reser_eq, stream_eq, digest_eq, json_str(&detail));
         if samples.len() < 4 { samples.push(format!("{{\"stream\":\"b-behaviour\",\"source\":{}}}", src_json)); }
-        shards.push(format!("CBehav {} {} {} {} {} {}", coq_bytes(hdr), coq_bool(deser_ok), coq_bool(static_eq), coq_bool(scans_eq), coq_bool(reser_eq), coq_bool(stream_eq)), replay);
+        shards.push(format!("CBehav {} {} {} {} {} {} {}", coq_bytes(hdr), coq_bool(deser_ok), coq_bool(static_eq), coq_bool(scans_eq), coq_bool(reser_eq), coq_bool(stream_eq), coq_bool(digest_eq)), replay);
         stream_eq = stream_eq && true;
         let _ = stream_eq;
 
@@ -1156,6 +1287,52 @@ pub fn run(args: &[String]) -> i32 {
             blobs_emitted += 1; stats.inc("d_model_decoded_blobs"); stats.add("d_model_decoded_bytes", b0.len() as u64);
             shards.flush();
             shards.push(format!("CBlob {}", coq_bytes_chunked(&b0)), format!("{{\"stream\":\"d-blob\",\"source\":{},\"blob_len\":{}}}", src_json, b0.len()));
+            shards.flush();
+            // the globals blob inside it, decoded by the model of types::Struct
+            if let DOut::Ok(Val::Tuple(f), _) = real_decode(&rty, &b0[hdr_len..]) {
+                if let Some(Val::Bytes(g)) = f.get(F_GLOBALS) {
+                    let shape_ok = matches!(real_decode(&globals_ty(), g), DOut::Ok(_, n) if n == g.len());
+                    stats.inc(if shape_ok { "d_globals_blobs" } else { "d_globals_blob_NOT_decodable_by_rust_shape" }); stats.add("d_globals_bytes", g.len() as u64);
+                    shards.push(format!("CGlobals {}", coq_bytes_chunked(g)), format!("{{\"stream\":\"d-globals\",\"source\":{},\"globals_hex\":\"{}\"}}", src_json, hex(g)));
+                    shards.flush();
+                }
+            }
+        }
+        // (c') single-bit flips of the header and of every framing integer, in a child process
+        // (the first one on the corpus rule set holding every sub-pattern kind, then on generated sets)
+        if flip_sets_done < n_flip_sets && c1 == Ocl::Ok && b0.len() <= max_blob && (flip_sets_done > 0 || src_json.contains("rule kinds") || corpus.is_empty()) {
+            flip_sets_done += 1;
+            let mut frames = vec![]; let mut pos = hdr_len;
+            let walked = walk(&rty, &b0, &mut pos, &mut frames).is_some() && pos == b0.len();
+            if !walked { stats.inc("c_flip_walker_FAILED"); frames.clear(); }
+            // which (byte position, bit)
+            let mut flips: Vec<(usize, u8)> = (0..hdr_len).flat_map(|p| (0..8u8).map(move |b| (p, b))).collect();
+            let per_frame_all = flips_all_bits || frames.len() * 8 <= max_flips;
+            for (off, len) in &frames {
+                if per_frame_all { for p in *off..*off + *len { for b in 0..8u8 { flips.push((p, b)); } } }
+                else { flips.push((*off, rng.below(8) as u8)); if *len > 1 { flips.push((*off + 1 + rng.below((*len - 1) as u64) as usize, rng.below(8) as u8)); } }
+            }
+            if flips.len() > max_flips + hdr_len * 8 { let keep = hdr_len * 8; let mut rest = flips.split_off(keep); while rest.len() > max_flips { let i = rng.below(rest.len() as u64) as usize; rest.swap_remove(i); } rest.sort(); flips.extend(rest); }
+            let outcomes = run_flips(Path::new(&out), &b0, &flips);
+            let mut counts: std::collections::BTreeMap<&str, u64> = Default::default();
+            for (_, f) in &outcomes { *counts.entry(match f { Fcl::Err(_) => "c_flip_err", Fcl::OkSame => "c_flip_ok_same", Fcl::OkDiff => "c_flip_ok_different", Fcl::Panic => "c_flip_PANIC", Fcl::Abort(_) => "c_flip_ABORT", Fcl::Mem(_) => "c_flip_MEMORY" }).or_default() += 1; }
+            for (k, v) in counts { stats.add(k, v); }
+            stats.add("c_flip_frames", frames.len() as u64);
+            let bad: Vec<String> = outcomes.iter().filter(|(_, f)| matches!(f, Fcl::Panic | Fcl::Abort(_) | Fcl::Mem(_))).take(10).map(|((p, b), f)| format!("byte {} bit {}: {:?}", p, b, f)).collect();
+            shards.flush();
+            shards.push(format!("CBodyFlips {}", coq_list(&outcomes, |((p, b), f)| format!("({}, {}, {})", coq_n(*p as u64), coq_n(*b as u64), f.coq()))),
+                format!("{{\"stream\":\"c-flips\",\"source\":{},\"blob_len\":{},\"flips\":{},\"crashes\":{}}}", src_json, b0.len(), outcomes.len(), json_str(&format!("{:?}", bad))));
+            // a sample also decoded by the model, with the positions of all framing integers
+            if flip_model_done < n_flip_model && walked {
+                flip_model_done += 1;
+                let body: Vec<&((usize, u8), Fcl)> = outcomes.iter().filter(|((p, _), _)| *p >= hdr_len).collect();
+                let mut sample: Vec<&((usize, u8), Fcl)> = vec![];
+                for want in ["eof", "other", "ok"] { for o in &body { let c = match &o.1 { Fcl::Err(Ocl::DecodeEof) => "eof", Fcl::Err(_) => "other", _ => "ok" }; if c == want && sample.len() < n_flip_sample && !sample.iter().any(|s| s.0 == o.0) { sample.push(o); if sample.iter().filter(|s| (match &s.1 { Fcl::Err(Ocl::DecodeEof) => "eof", Fcl::Err(_) => "other", _ => "ok" }) == want).count() >= (n_flip_sample + 2) / 3 { break; } } } }
+                let term = coq_list(&sample, |((p, b), f)| format!("({}, {}, {})", coq_n(*p as u64), coq_n((b0[*p] ^ (1u8 << *b)) as u64), coq_ocl(&match f { Fcl::Err(o) => o.clone(), Fcl::OkSame | Fcl::OkDiff => Ocl::Ok, _ => Ocl::Panic })));
+                stats.add("c_flip_model_decoded", sample.len() as u64);
+                shards.push(format!("CFlipModel {} {} {}", coq_bytes_chunked(&b0), coq_list(&frames, |(o, l)| format!("({}, {})", coq_n(*o as u64), coq_n(*l as u64))), term),
+                    format!("{{\"stream\":\"c-flip-model\",\"source\":{},\"sample\":{}}}", src_json, json_str(&format!("{:?}", sample))));
+            }
             shards.flush();
         }
         // (c) prefixes
